@@ -124,13 +124,16 @@ def checkCase (c : Case) : CaseResult := Id.run do
     let clean (v : Variant) : Bool := v.exc == "none" && !v.uns.any id && v.pos.isSome
     let cleanVs := vs.filter clean
     for v in vs do
-      if v.exc != "none" then stats := bumpStats stats ("skip.exception." ++ v.exc) 1
+      if v.exc == "abort" then stats := bumpStats stats "aborted" 1
+      else if v.exc != "none" then stats := bumpStats stats ("skip.exception." ++ v.exc) 1
       else if v.uns.any id then stats := bumpStats stats "skip.unsat-flagged" 1
       else if v.pos.isNone then return { verdict := .specfail s!"non-finite position in variant {v.name}" }
-    if cleanVs.isEmpty then continue
-    let hint := (cleanVs.head!).act
+    let aborted := vs.filter (fun v => v.exc == "abort")
+    if cleanVs.isEmpty && aborted.isEmpty then continue
+    let hint := if cleanVs.isEmpty then #[] else (cleanVs.head!).act
     match certifiedOptimum q hint with
     | none =>
+      if cleanVs.isEmpty then continue     -- only aborted variants and feasibility not certified: nothing to claim
       return { verdict := .diverge s!"oracle-uncertified (variant group of {(cleanVs.head!).name})", stats := stats }
     | some (xs, lam, iters) =>
       stats := bumpStats stats "oracle.certified" 1
@@ -138,6 +141,11 @@ def checkCase (c : Case) : CaseResult := Id.run do
       let nact := (lam.filter (· != 0)).size
       if nact > 0 then nontrivial := true
       stats := bumpStats stats "active-at-optimum" nact
+      -- the certified optimum proves the problem feasible: an abort (failed assertion / sanitizer
+      -- stop) instead of an answer is a failure of solve() on a feasible instance
+      for v in aborted do
+        let how := ((c.get1 ("exc." ++ v.name)).getD #[]).getD 1 "?"
+        fails := fails.push s!"solver-aborted variant={v.name} n={n} m={m} scaled={if s.any (· != 1) then 1 else 0} how={how} cause=abort-on-certified-feasible-problem"
       for v in cleanVs do
         let p := v.pos.getD #[]
         if p.size != n then return { verdict := .diverge s!"variant {v.name}: wrong number of positions" }
